@@ -28,3 +28,14 @@ Theorem gen_c14_dbl2 :
     qt_mpool_create_sizes_loop2 fuel (Z.of_N ps) (Z.of_N a) = option_map Z.of_N (dbl2 fuel a (ps * 16)).
 Proof. exact tie_dbl2. Qed.
 Print Assumptions gen_c14_dbl2.
+
+(* qt_gcd / qt_lcm themselves (include/qt_gcd.h -> Gen/Gcd.v; proofs in Gen/Tie_Gcd.v): the `zlcm` oracle of
+   gen_c14_create_sizes is the regenerated C function *)
+From QV Require Import Gen.Gcd Gen.Tie_Gcd.
+Theorem gen_c14_gcd : forall a b : N, qt_gcd (S (N.to_nat (N.size a))) (Z.of_N a) (Z.of_N b) = Some (Z.of_N (N.gcd a b)).
+Proof. exact tie_gcd. Qed.
+Print Assumptions gen_c14_gcd.
+Theorem gen_c14_lcm : forall a b : N, Z.of_N a * Z.of_N b < 18446744073709551616 ->
+  Gen.Gcd.qt_lcm (S (N.to_nat (N.size a))) (Z.of_N a) (Z.of_N b) = Some (Z.of_N (Mpool.Model.qt_lcm a b)).
+Proof. exact tie_lcm. Qed.
+Print Assumptions gen_c14_lcm.
